@@ -8,6 +8,7 @@ AST-equal to the authored operation after undoing the two documented rewrites, f
 from __future__ import annotations
 
 import json
+import re
 
 from graphql import NoUnusedFragmentsRule, build_schema, parse, specified_rules, validate
 
@@ -54,12 +55,38 @@ def build_cases(tier):
             cases.append(dict(family="mixin", schema=corpus.SCHEMA_K, doc_text=q, ops=[{"name": n, "kwargs": {}} for n in names], tags={f"mixin:{label}"} | ({"extract_plugin"} if plug else set()),
                               options=dict({"files_to_include": ["@mixins.py"]}, **({"plugins": [EXTRACT]} if plug else {})), files={"mixins.py": MIX}))
     for label, (opn, q) in corpus2.LOCAL_NAME_OPS.items():
-        for cfg in ({}, {"async_client": False}, {"plugins": [EXTRACT]}, {"opentelemetry_client": True}):
+        for cfg in ({}, {"async_client": False}, {"plugins": [EXTRACT]}, {"opentelemetry_client": True}, {"opentelemetry_client": True, "tracer": "noop"},
+                    {"opentelemetry_client": True, "tracer": "stub"}, {"opentelemetry_client": True, "async_client": False, "tracer": "stub"}):
             sub = label.startswith("subscription")
             if sub and cfg.get("async_client") is False:
                 continue
+            cfg = dict(cfg)
+            tracer = cfg.pop("tracer", "none")
             cases.append(dict(family="local_names", schema=corpus2.SCHEMA_L, doc_text=q + "\n", ops=[{"name": opn, "kwargs": corpus2.LOCAL_NAME_KWARGS[opn], "subscription": sub}],
-                              tags={f"localnames:{label}"} | {f"cfg:{k}" for k in cfg}, options=cfg))
+                              tags={f"localnames:{label}"} | {f"cfg:{k}" for k in cfg} | ({f"tracer:{tracer}"} if tracer != "none" else set()), options=cfg, tracer=tracer))
+    # several operations in one package, each with its own fragments: nothing of one operation may leak into another's document
+    PAIR_OPS = ["query PA { user { ...FUser } }", "query PB { u { ...FU } }", "query PC { node { ...FNodeInl } }", "query PD { user { ...FNested } }",
+                "query PE { user { id } }", "query PF { node { ...FNode } }", "query PG { user { ...FNode } }", "query PH { ul { ...FAdmin ... on User { id } } }",
+                "query PI { named { ...FNamed } }", "mutation PM { __typename }"]
+    PAIR_OPS = [q for q in PAIR_OPS if valid_input(K, q + "\n" + "\n".join(f[1] for f in corpus.FRAGMENTS.values()))]
+    allfr = "\n".join(f[1] for f in corpus.FRAGMENTS.values())
+
+    def used(qs):
+        names = set()
+        for q in qs:
+            names |= corpus.frag_closure(set(re.findall(r"\.\.\.(F\w+)", q)))
+        return "\n".join(corpus.FRAGMENTS[n][1] for n in sorted(names))
+    import itertools
+    for a, b in itertools.permutations(PAIR_OPS, 2):
+        doc = a + "\n" + b + "\n" + used([a, b]) + "\n"
+        for plug in (False, True):
+            cases.append(dict(family="op_pairs", schema=corpus.SCHEMA_K, doc_text=doc, ops=[{"name": q.split()[1], "kwargs": {}} for q in (a, b)],
+                              tags={"op_pairs", f"pair:{a.split()[1]}>{b.split()[1]}"} | ({"extract_plugin"} if plug else set()), options={"plugins": [EXTRACT]} if plug else {}))
+    if tier != "quick":
+        for tri in itertools.permutations(PAIR_OPS[:7], 3):
+            doc = "\n".join(tri) + "\n" + used(tri) + "\n"
+            cases.append(dict(family="op_pairs", schema=corpus.SCHEMA_K, doc_text=doc, ops=[{"name": q.split()[1], "kwargs": {}} for q in tri],
+                              tags={"op_pairs", "op_triple"}, options={}))
     graph_sets = [(2, FT4), (3, ("User", "Node"))] if tier == "quick" else [(2, FT4), (3, ("User", "Node", "Named")), (4, ("User", "Node"))]
     for nf, ts in graph_sets:
         for g in corpus2.fragment_graphs(nf, ts):
@@ -79,7 +106,7 @@ def main(tier):
     genpkg.warm()
     K = corpus.schema_k()
     cases = build_cases(tier)
-    payload = [dict(schema=c["schema"], doc_text=c["doc_text"], ops=c["ops"], options=c["options"], files=c.get("files")) for c in cases]
+    payload = [dict(schema=c["schema"], doc_text=c["doc_text"], ops=c["ops"], options=c["options"], files=c.get("files"), tracer=c.get("tracer", "none")) for c in cases]
     results = pool.run_cases(opcheck.capture_requests, payload, timeout=300, progress=1000)
     stats = {"cases": len(cases), "requests_checked": 0, "generation_failures": 0, "invalid_inputs_skipped": 0, "plugin_pairs_compared": 0}
     fam = {}
@@ -87,12 +114,13 @@ def main(tier):
     by_doc = {}
     for c, (st, r) in zip(cases, results):
         fam[c["family"]] = fam.get(c["family"], 0) + 1
-        desc = {"family": c["family"], "schema": "K" if c["schema"] is corpus.SCHEMA_K else "L", "query": c["doc_text"], "options": c["options"]}
+        desc = {"family": c["family"], "schema": "K" if c["schema"] is corpus.SCHEMA_K else "L", "query": c["doc_text"], "options": c["options"],
+                "ops": c["ops"], "files": c.get("files"), "tracer": c.get("tracer", "none")}
         schema = K if c["schema"] is corpus.SCHEMA_K else None
 
         def F():
             f = set(c["tags"] or ())
-            if c["family"] in ("grammar", "fragment_graph"):
+            if c["family"] in ("grammar", "fragment_graph", "op_pairs"):
                 f |= features.op_features(K, c["doc_text"])
             return f
         if rep.triage:
@@ -164,8 +192,9 @@ def replay(path):
     genpkg.warm()
     schema_text = corpus.SCHEMA_K if c.get("schema") == "K" else corpus2.SCHEMA_L
     doc = parse(c["query"])
-    ops = [{"name": d.name.value, "kwargs": {"v": True} if "$v" in c["query"] else {}} for d in doc.definitions if d.kind == "operation_definition"]
-    st, r = pool.run_forked(opcheck.capture_requests, dict(schema=schema_text, doc_text=c["query"], ops=ops, options=c.get("options") or {}))
+    ops = c.get("ops") or [{"name": d.name.value, "kwargs": {"v": True} if "$v" in c["query"] else {}} for d in doc.definitions if d.kind == "operation_definition"]
+    st, r = pool.run_forked(opcheck.capture_requests, dict(schema=schema_text, doc_text=c["query"], ops=ops, options=c.get("options") or {}, files=c.get("files"),
+                                                            tracer=c.get("tracer", "none")))
     print(st, (r or {}).get("status"), (r or {}).get("gen_error"))
     hits = [p for p in (r or {}).get("problems", []) if p[1] == rec["clause"]]
     for p in hits[:5]:
